@@ -13,6 +13,7 @@ OP_OWNER = {
     "equals": ["C09"],
     "wf": ["C10"],
     "sortadv": ["C03"],
+    "ryu": ["C16"], "ryudec": ["C16"],
     "csvraw": ["C12"], "csvread": ["C12"],
     "csvfault": ["C15"], "csvreadfault": ["C15"],
 }
@@ -54,6 +55,12 @@ PROPS = {
                          {"section": "csvread", "quick": 300, "thorough": 3000, "cover_ops": {"CV"}}],
             "rule": "cases = (document, read schedule) pairs read by the real fastcsv reader / ReadCSV and replayed through the L0 mirror (exact rows, errors, stale bytes) "
                     "and the RFC 4180 scanner (what the document denotes); distinct by transcript line; every generated document has quotes, delimiters or line breaks in cells with probability > 1/2"},
+    "C16": {"lean": ["QF.Props.C16"],
+            "sections": [{"section": "ryu", "quick": 300, "thorough": 5000, "cover_ops": {"F"}}],
+            "open_goals": ["Ryu precision lemma (the truncated 121/122-bit multipliers give the exact floors for all 2^64 inputs) is not proved; the unbounded claim '= strconv text for every float64' is therefore tested, not proved",
+                           "mirror of float64ToDecimal over the extracted tables"],
+            "rule": "cases = (float64 bit pattern, buffer state); each output is checked against the Lean definition of shortest round-trip text (exact big-number arithmetic, QF.Num.isShortestRoundTrip) and against strconv; "
+                    "generator: special values, all exponents x boundary mantissas, exact integers, powers of ten +-1ulp, short decimals, subnormals, random bits; distinct by (bits, prefix, spare)"},
     "C15": {"lean": ["QF.Props.C12"], "extra_ns": ["QF.Props.C12"],
             "sections": [{"section": "csvraw", "tag": "csvrawfaults", "opt": "faults=1", "quick": 60, "thorough": 600, "cover_ops": {"C"}},
                          {"section": "csvread", "tag": "csvreadfaults", "opt": "faults=1", "quick": 400, "thorough": 4000, "cover_ops": {"CV"}}],
@@ -74,6 +81,9 @@ def _lt(text, technique, note=""):
 
 
 LEVEL_TEXT = {
+    "C16": _lt("layoutInt_spec: the integer layout of appendF writes old content ++ digits ++ zeros for every buffer state (any stale spare capacity). Every output of the real formatter on generated floats and buffer states is checked in Lean against the definition of shortest round-trip text (exact natural-number arithmetic: parses back to the identical bits under correct rounding, no shorter decimal does, closest of that length) and against strconv.FormatFloat.",
+               "Lean 4 proof (formatter layout) + executable Lean definition of shortest round trip as differential oracle",
+               "PARTIAL: the claim for all 2^64 floats rests on Ryu's precision lemma, which is not proved here; the digit-generation core is validated by differential runs only (labelled as tests)."),
     "C12": _lt("read_schedule_independent / any_two_schedules_agree: the mirror of the whole fastcsv reader returns the same rows, fields and error for every read schedule (lock-step simulation against the fully loaded buffer); qscan_content: an escaped field is read back as its content. The real reader and ReadCSV are compared exactly with the L0 mirror and with the RFC 4180 scanner / ReadCSV spec on generated documents, schedules and configurations.",
                "Lean 4 proof (simulation: any schedule = loaded buffer) + differential correspondence",
                "strconv parsing is a parameter (oracle computed by the harness from the standard library). Two recorded findings (CR inside quotes, trailing empty field at EOF) are excluded by name."),
